@@ -29,6 +29,9 @@ class Net(object):
         self.max_seg = cfg.get('max_seg', 64)
         self.eof_read_limit = cfg.get('eof_read_limit')  # spin detector
         self.eagain_sends = set(cfg.get('eagain_sends', ()))  # send indices
+        # send index -> how long that send() blocks (peer reads slowly)
+        self.send_stalls = {int(k): int(v) for k, v in
+                            (cfg.get('send_stalls') or {}).items()}
         self.sends_seen = 0
         self.conns = []            # accepted TcpConn, in order
         self.attempts = 0          # connect() calls so far
@@ -291,7 +294,16 @@ class SimSocket(object):
             sim.log('send-eagain', conn.index)
             raise BlockingIOError(errno.EAGAIN,
                                   'Resource temporarily unavailable')
+        stall = self.net.send_stalls.get(self.net.sends_seen)
         self.net.sends_seen += 1
+        if stall:
+            # backpressure: the caller sits in send() (holding whatever
+            # locks it holds) for a while
+            sim.stat('fault.send-stall')
+            sim.log('send-stall', (conn.index, stall))
+            sim.block(lambda: False, stall, reason='send-stall')
+            if conn.local_shutdown or conn.local_wr_shutdown or self.closed:
+                raise BrokenPipeError(errno.EPIPE, 'Broken pipe')
         if conn.s2c_eof and conn.server_closed:
             # peer has closed: the first send succeeds, later ones may fail
             conn.sends_after_peer_close += 1
